@@ -148,7 +148,14 @@ def run_case(ctx, case):
                           f"capabilities differ between one response and a split at {k}: {diff}", case, {"split": k, "diff": diff})
 
 
-    # ---- oracle 3: the result of a query does not depend on what the same object learned from an earlier query
+    # ---- oracle 3: the result of a query does not depend on what the same object learned from an earlier, shorter answer of
+    # the same device (the additional page was empty the first time).  Only for lists without a repeated capability id and
+    # without undersized temperature records: several capability attributes are deliberately sticky (energy polling is only
+    # ever switched on, rate-select / range attributes are only assigned when reported), so an earlier answer that
+    # *contradicts* the later one - which a repeated id on both pages amounts to - may legitimately show through
+    if len({cid for cid, _ in records}) != len(records) or _has_short_temps(records):
+        ctx.skip("re-query oracle not applied to lists with repeated ids / undersized temperature records")
+        return
     net = H.new_net()
     model = ACModel()
     dev = SimDevice(net, version=2, device_id=0x56, ac=model)
